@@ -215,7 +215,9 @@ def runtime_program(fault, ctx, kinds, nmod, tpl_line):
             pre = ["import", "{", exports[k - 1], "}", "from", "'./%s'" % os.path.basename(paths[mod_of[k - 1]]), ";", NL]
         # export when the caller lives in another module (the outermost frame lives in main)
         if k + 1 < d and mod_of[k + 1] != m:
-            toks = ["export"] + toks
+            # (the exported declaration is the one named exports[k], which need not be the first of the tokens)
+            at = next((i for i in range(len(toks) - 1) if toks[i] in ("class", "function", "const") and toks[i + 1] == exp), 0)
+            toks = toks[:at] + ["export"] + toks[at:]
         streams[m] = streams[m] + pre + toks
         expected.append((names, paths[m], (m, k)))
     # top level in main
